@@ -105,6 +105,34 @@ fn run(rng: &mut Rng, _idx: u64, tier: Tier) -> CaseOut {
             (branch(rng), branch(rng))
         };
         bin(*rng.pick(&[Bin::And, Bin::Or, Bin::Imp, Bin::Xor]), a, b)
+    } else if fopts.max_quant_depth >= 2 && rng.chance(1, 5) {
+        // two nested quantifiers over the SAME domain label above a one-variable sub-formula, and (to the right, i.e.
+        // evaluated later) the same sub-formula where the outer variable is unrestricted or restricted by another label
+        let lab = rng.pick(&["p", "d", "e"]).to_string();
+        let other = if lab == "p" { "d" } else { "p" };
+        let lit = F::Prop(rng.pick(&net.names).clone());
+        let g = match rng.below(6) {
+            0 => un(Un::AX, var("y")),
+            1 => un(Un::EF, var("y")),
+            2 => bin(Bin::And, un(Un::Not, var("y")), un(Un::EF, var("y"))),
+            3 => un(Un::EX, var("y")),
+            4 => bin(Bin::EU, lit.clone(), var("y")),
+            _ => F::Hyb(Hyb::Jump, "y".to_string(), None, Box::new(lit.clone())),
+        };
+        let mk = |rng: &mut Rng, outer: Option<String>| -> F {
+            let body = match rng.below(3) {
+                0 => F::Hyb(Hyb::Jump, "x".to_string(), None, Box::new(g.clone())),
+                1 => bin(*rng.pick(&[Bin::And, Bin::Or]), g.clone(), var("x")),
+                _ => bin(Bin::And, F::Hyb(Hyb::Jump, "x".to_string(), None, Box::new(lit.clone())), g.clone()),
+            };
+            let q1 = *rng.pick(&[Hyb::Exists, Hyb::Bind, Hyb::Forall]);
+            let q2 = *rng.pick(&[Hyb::Exists, Hyb::Bind, Hyb::Forall]);
+            F::Hyb(q1, "x".to_string(), outer, Box::new(F::Hyb(q2, "y".to_string(), Some(lab.clone()), Box::new(body))))
+        };
+        let a = mk(rng, Some(lab.clone()));
+        let outer_b = if rng.coin() { None } else { Some(other.to_string()) };
+        let b = mk(rng, outer_b);
+        bin(*rng.pick(&[Bin::And, Bin::Or, Bin::Xor]), a, b)
     } else {
         gen_formula(rng, &fopts, &net.names)
     };
